@@ -619,7 +619,7 @@ def _hb_scenario(name, mode, ivl, tmo, v2=False, sock_type="PULL", peer_type=b"P
 def c19_sockets(ctx):
     thorough = ctx.tier == "thorough"
     scs = []
-    for (ivl, tmo) in ([(200, 300), (400, 200), (150, 600)] if thorough else [(200, 300)]):
+    for (ivl, tmo) in ([(200, 300), (400, 200), (150, 600), (100, 700)] if thorough else [(200, 300), (100, 700)]):
         for mode in ["silent", "pong", "data"]:
             scs.append(_hb_scenario("hb-%s-%d-%d" % (mode, ivl, tmo), mode, ivl, tmo))
     scs.append(_hb_scenario("hb-v2-silent", "silent", 200, 300, v2=True, dur=1500))
